@@ -1,10 +1,11 @@
 #!/usr/bin/env python3
 """Confirm a seeded change produced by a sub-agent and, if confirmed, store it under /verif/seeded/<id>/.
-usage: seedconfirm.py <Cxx> <mN> <outdir-of-agent>
+usage: seedconfirm.py <Cxx> <mN> <outdir-of-agent> [<name to store under, default mN>]
 Confirms in a fresh scratch worktree: demo passes without the patch, fails with it; the existing tests of the
 affected packages pass with the patch."""
 import json, os, re, shutil, subprocess, sys, tempfile
 prop, m, src = sys.argv[1:4]
+store = sys.argv[4] if len(sys.argv) > 4 else m
 meta = json.load(open(os.path.join(src, m + ".meta.json")))
 patch = os.path.join(src, m + ".patch.diff")
 demo = os.path.join(src, m + "_demo_test.go")
@@ -51,7 +52,7 @@ try:
         allok = allok and not fails
     print(json.dumps(dict(prop=prop, m=m, demo_passes_without=ok0, demo_fails_with=fail1, builds=b.returncode == 0, existing_tests=tests)))
     if ok0 and fail1 and allok:
-        d = os.path.join("/verif/seeded", "%s-%s" % (prop, m))
+        d = os.path.join("/verif/seeded", "%s-%s" % (prop, store))
         os.makedirs(d, exist_ok=True)
         shutil.copy(patch, os.path.join(d, "patch.diff"))
         shutil.copy(demo, os.path.join(d, "demo_test.go"))
